@@ -11,6 +11,8 @@ import ObiVerif.Lemmas.ApatComplete
 import ObiVerif.Lemmas.ApatIupacSeq
 import ObiVerif.Lemmas.ApatPure
 import ObiVerif.Lemmas.ApatCircularAll
+import ObiVerif.Lemmas.ApatLen64
+import ObiVerif.Lemmas.ApatIndelRc
 /-!
 # C10 — primer pattern matching reports exactly the matching positions and error counts (property theorems)
 
@@ -85,11 +87,37 @@ Third round (second deepening pass), proved — see the section "round 2" at the
   `allMatches_mismatch_is_filter` (exact / mismatch-only mode is not affected), `allMatches_circular_affected`,
   `allMatches_circular_inside_ok`, `bestMatch_circular_char`, counterexamples `circular_*`.
 
+Fourth round (third deepening pass), proved — section "round 3" at the end of this file:
+* the pattern-length bound.  Every theorem above carries the explicit hypothesis `1 ≤ P.patlen ≤ 63` (`patlen_63_covered`: the
+  bound is reached, a 63-position pattern compiles and satisfies it); `MakeApatPattern` accepts 64 positions = `MAX_PAT_LEN`
+  (`len64_accepted`) and there the statement is FALSE: `len64_no_exact_automaton` (for NO value of the undefined shift
+  `0x1L << 64` does the exact-matching automaton answer correctly on both `a^64` and `c a^63` for the pattern `A^64`),
+  `len64_not_exact`, `manberNoErr_exact_fails_at_64` (the statement of `manberNoErr_exact` with `patlen ≤ 64` is refuted),
+  `len64_d33_witness` (`ACGT`x16, one error, on `acgt`x20: five exact occurrences; `ManberSub` reports nothing with the shift
+  value 0 and with the x86 value 1; `ManberIndel` reports nothing resp. all 80 end positions with one error — what the real
+  code answers; known finding D33 stays open).
+
+* strand symmetry WITH INDELS (until now the oracle `find.revcomp-indel` only): `editDist_strand` (the edit distance of the
+  complemented pattern to `d[a:b]` is the edit distance of the pattern to the mirrored substring `rc(d)[n-b : n-a]`),
+  `match_revcomp_indel` (for every error level `K`: the complemented pattern has a hit with at most `K` errors on `d` iff the
+  pattern has one on `rc(d)` — so a match is reported on one strand iff on the other, with the same best error count),
+  `match_revcomp_indel_locus` (a hit ending at `pos` with witness substring `d[a..pos]` ↔ a hit ending at the mirror image of `a`
+  with at most as many errors), `match_revcomp_indel_string` (the same for the pattern returned by `ReverseComplement`, for
+  every pattern string of the grammar without `#`);
+* strand symmetry at the level of the Go API, on the stored bytes with the `obiseq` reverse complement (`SeqOps.rc`, C07's model):
+  `findAllIndex_revcomp` (`FindAllIndex` of the complemented pattern on `seq` ≡ `FindAllIndex` of the pattern on
+  `seq.ReverseComplement()` with `(s, e, k) ↦ (n - e, n - s, k)`, exact / mismatch-only mode), `findAllIndex_revcomp_string` (the same
+  for `MakeApatPattern(p).ReverseComplement()`, every pattern string of the documented grammar), `findAllIndex_revcomp_indel`
+  (with indels, per error level);
+* `findAllIndex_circular_is_extended` (+ `findAllIndex_indel_circular`): `FindAllIndex` on a circular sequence IS `FindAllIndex` on
+  the linear sequence extended by its first `min(len, MAX_PAT_LEN)` symbols, so that every theorem about linear sequences
+  describes the raw hits on circular ones, in every mode.
+
 NOT proved / excluded (tied by the correspondence check and the harness oracle only, see lib/cfg/C10.py):
 * `complementPattern` outside the documented grammar (`complement_outside_grammar`: `A##A` ↦ `T##T`, `A##` ↦ rejected);
 * `AllMatches` / `BestMatch` for patterns with `!`, `#`, `[`: `LocatePattern` compares the raw pattern string (documented
   restriction of `AllMatches`); completeness is proved for letters-only patterns without `X`;
-* pattern length 64 (D33).
+* pattern length 64 (D33): undefined behaviour in C, result lines printed `unmodelled`; refuted above for every value of the shift.
 -/
 namespace ObiVerif.Props.C10
 open ObiVerif ObiVerif.Apat
@@ -1045,5 +1073,297 @@ theorem circular_counterexamples :
    ⟨circular_allMatches_panics.1, circular_allMatches_panics.2.1, circular_allMatches_panics.2.2.1⟩,
    ⟨circular_bestMatch_misses_inside_hit.2.1, circular_bestMatch_misses_inside_hit.2.2.1,
     circular_bestMatch_misses_inside_hit.2.2.2.2.2.1⟩⟩
+
+/-! ## round 3 — the pattern-length bound: proved up to 63, false at 64 = `MAX_PAT_LEN` (known finding D33) -/
+
+set_option maxRecDepth 1000000 in
+/-- **the bound `patlen ≤ 63` is reached** (non-vacuity of every theorem above at the bound, and a test): `ACGT`x15 + `ACG` compiles
+to 63 positions; with 2 errors on `acgt`x20 the model reports the five periodic occurrences `0, 4, 8, 12, 16` without error
+(the real code gives the same list: corpus of the harness). -/
+theorem patlen_63_covered :
+    (compile ((List.replicate 15 [65, 67, 71, 84]).flatten ++ [65, 67, 71] : Bytes) 2 false).toOption.map
+      (fun P => (decide (1 ≤ P.patlen ∧ P.patlen ≤ 63), P.patlen,
+        manberSub P (List.replicate 20 [0, 2, 6, 19]).flatten 0 144))
+      = some (true, 63, [(0, 0), (4, 0), (8, 0), (12, 0), (16, 0)]) := by decide
+
+/-- **`MakeApatPattern` accepts a pattern of 64 positions** (`MAX_PAT_LEN`; no length test in `buildPattern`) -/
+theorem len64_accepted :
+    makeApatPattern (List.replicate 64 65) 0 false = .ok patA64 ∧ patA64.patlen = 64 ∧ Gen.apatMaxPatLen = 64 :=
+  ⟨by rw [(makeApatPattern_guard _ 0 false).2 (by decide)]; exact patA64_compiles, patA64_patlen, by decide⟩
+
+/-- **no value of `0x1L << 64` gives an exact automaton at 64 positions.**  `manberNoErrWith v` is `ManberNoErr` with the value of
+the (undefined) shift `0x1L << patlen` as a parameter (`manberNoErr = manberNoErrWith (1#64 <<< patlen)` by `rfl`).  For the
+pattern `A^64` and every `v`: the exact occurrence in `a^64` is missed, or a hit is reported in `c a^63`, where the
+specification (`hamCost`) says one occurrence at 0 resp. none.  The automaton needs the `m + 1` bits `m - j`, `j = 0..m`
+(invariant `Rep`): 65 bits for `m = 64`. -/
+theorem len64_no_exact_automaton (v : W) :
+    (((0 : Int), 0) ∉ manberNoErrWith v patA64 textA64 0 64 ∨ manberNoErrWith v patA64 textCA63 0 64 ≠ []) ∧
+    hamCost patA64.codes textA64 = some 0 ∧
+    (∀ i, hamCost patA64.codes (textCA63.drop i) ≠ some 0 ∨ 64 < i + patA64.patlen) :=
+  ⟨noErr_len64_inexact v, len64_spec.1, len64_spec.2⟩
+
+/-- the same as the negation of the statement of `manberNoErr_exact` (`NoErrSpec` = its right-hand side) on these two texts,
+for every value of the shift … -/
+theorem len64_not_exact (v : W) :
+    ¬ (∀ data ∈ [textA64, textCA63], ∀ (i : Int) (k : Nat),
+        (i, k) ∈ manberNoErrWith v patA64 data 0 64 ↔ NoErrSpec patA64 data 0 64 i k) :=
+  Apat.len64_not_exact v
+
+/-- … and for the model as it is: **`manberNoErr_exact` with `patlen ≤ 64` instead of `patlen ≤ 63` is false** -/
+theorem manberNoErr_exact_fails_at_64 :
+    ¬ (∀ (P : Pattern) (data : List Nat) (begin length : Nat), 1 ≤ P.patlen → P.patlen ≤ 64 → (∀ c ∈ data, c < 26) →
+        ∀ (i : Int) (k : Nat), (i, k) ∈ manberNoErr P data begin length ↔ NoErrSpec P data begin length i k) :=
+  Apat.manberNoErr_exact_fails_at_64
+
+/-- `NoErrSpec` is literally the right-hand side of `manberNoErr_exact` -/
+example (P : Pattern) (data : List Nat) (begin length : Nat)
+    (hm1 : 1 ≤ P.patlen) (hm : P.patlen ≤ 63) (hd : ∀ c ∈ data, c < 26) (i : Int) (k : Nat) :
+    (i, k) ∈ manberNoErr P data begin length ↔ NoErrSpec P data begin length i k :=
+  manberNoErr_exact P data begin length hm1 hm hd i k
+
+/-- **the D33 witness** (sample evaluations; the real code behaves like the value 1, gcc/x86-64): `ACGT`x16 = 64 positions, one
+error, on `acgt`x20 — five exact occurrences; `ManberSub` reports nothing (model as it is, shift value 0, shift value 1);
+`ManberIndel` reports nothing (0) or all 80 end positions with one error (1). -/
+theorem len64_d33_witness :
+    (∀ b, compile strACGT16 1 b = .ok (patACGT16 b) ∧ (patACGT16 b).patlen = 64) ∧
+    [0, 4, 8, 12, 16].map (fun i => hamCost (patACGT16 false).codes (textACGT20.drop i)) =
+      [some 0, some 0, some 0, some 0, some 0] ∧
+    (manberSub (patACGT16 false) textACGT20 0 144 = [] ∧ manberSubWith 0 (patACGT16 false) textACGT20 0 144 = [] ∧
+      manberSubWith 1 (patACGT16 false) textACGT20 0 144 = []) ∧
+    (manberIndelWith 0 (patACGT16 true) textACGT20 0 144 = [] ∧
+      manberIndelWith 1 (patACGT16 true) textACGT20 0 144 = (List.range 80).map (fun (i : Nat) => ((i : Int) - 63, 1))) :=
+  ⟨fun b => ⟨patACGT16_compiles b, patACGT16_patlen b⟩, acgt16_spec, acgt16_sub_reports_nothing, acgt16_indel_reports_garbage⟩
+
+/-! ## round 3 — strand symmetry with indels -/
+
+/-- **the edit distance is strand-symmetric**: `codes'` = the mirror of the reversed code list (what `complementPattern`
+computes); the distance of the complemented pattern to the substring `d[a:b]` is the distance of the pattern to the
+mirror image `rc(d)[n-b : n-a]` of that substring (letters only and no `u` in the sequence). -/
+theorem editDist_strand (codes codes' d : List Nat) (hmir : MirrorList codes.reverse codes')
+    (hd : ∀ c ∈ d, c < 26 ∧ c ≠ 20) (a b : Nat) (hab : a ≤ b) (hb : b ≤ d.length) :
+    editDist accepts codes' ((d.drop a).take (b - a)) =
+      editDist accepts codes (((rcData d).drop (d.length - b)).take (d.length - a - (d.length - b))) :=
+  editDist_sub_rc codes codes' d hmir hd a b hab hb
+
+/-- **matching the reverse-complemented pattern ≡ matching the pattern on the reverse-complemented sequence, with indels**
+(`ManberIndel`, whole-sequence search, pattern of 1..63 positions without `#`).  A hit of the indel automaton is located by
+its END and stands for a substring of variable length, so the hit lists are not mirror images position by position
+(`match_revcomp_indel_locus` says what corresponds to what); the symmetric statement is per error level: for every `K`, the
+complemented pattern `P'` has a hit with at most `K` errors on `d` iff `P` has one on `rc(d)`.  With `K = maxerr`: a match is
+reported on one strand iff it is on the other; with all `K`: the least error count over the hits is the same. -/
+theorem match_revcomp_indel (P P' : Pattern) (d : List Nat) (hmir : MirrorList P.codes.reverse P'.codes)
+    (he : P'.maxerr = P.maxerr) (hm1 : 1 ≤ P.patlen) (hm : P.patlen ≤ 63)
+    (hno : ∀ a ∈ P.codes, oblig a = false) (hd : ∀ c ∈ d, c < 26 ∧ c ≠ 20) (K : Nat) :
+    (∃ i k, k ≤ K ∧ (i, k) ∈ manberIndel P' d 0 d.length) ↔
+      (∃ i k, k ≤ K ∧ (i, k) ∈ manberIndel P (rcData d) 0 d.length) :=
+  manberIndel_revcomp P P' d hmir he hm1 hm hno
+    (hmir.no_oblig (fun a ha => hno a (List.mem_reverse.1 ha))) hd K
+
+/-- … in particular **a match is reported on one strand iff it is reported on the other** -/
+theorem match_revcomp_indel_nonempty (P P' : Pattern) (d : List Nat) (hmir : MirrorList P.codes.reverse P'.codes)
+    (he : P'.maxerr = P.maxerr) (hm1 : 1 ≤ P.patlen) (hm : P.patlen ≤ 63)
+    (hno : ∀ a ∈ P.codes, oblig a = false) (hd : ∀ c ∈ d, c < 26 ∧ c ≠ 20) :
+    manberIndel P' d 0 d.length ≠ [] ↔ manberIndel P (rcData d) 0 d.length ≠ [] := by
+  have hl : P'.patlen = P.patlen := by unfold Pattern.patlen; simpa using hmir.length_eq
+  have hno' := hmir.no_oblig (fun a ha => hno a (List.mem_reverse.1 ha))
+  have key : ∀ (Q : Pattern) (D : List Nat), 1 ≤ Q.patlen → Q.patlen ≤ 63 → (∀ c ∈ D, c < 26) →
+      (∀ a ∈ Q.codes, oblig a = false) →
+      (manberIndel Q D 0 D.length ≠ [] ↔ ∃ i k, k ≤ Q.maxerr ∧ (i, k) ∈ manberIndel Q D 0 D.length) := by
+    intro Q D h1 h2 h3 h4
+    constructor
+    · intro hne
+      obtain ⟨⟨i, k⟩, hx⟩ := List.exists_mem_of_ne_nil _ hne
+      obtain ⟨_, _, _, _, hk, _⟩ := (indel_iff Q D 0 D.length h1 h2 h3 h4 i k).1 hx
+      exact ⟨i, k, hk, hx⟩
+    · rintro ⟨i, k, _, hx⟩; exact List.ne_nil_of_mem hx
+  have h2 := key P (rcData d) hm1 hm (rcData_lt d (fun c hc => (hd c hc).1)) hno
+  rw [rcData_length] at h2
+  rw [key P' d (by omega) (by omega) (fun c hc => (hd c hc).1) hno', h2, he]
+  exact match_revcomp_indel P P' d hmir he hm1 hm hno hd P.maxerr
+
+/-- **what corresponds to what**: a hit of `P'` on `d` ending at `pos` with `k` errors stands for a substring `d[a .. pos]` at
+edit distance `k`; when that substring is not empty, `P` has a hit on `rc(d)` ending at the mirror image `n - 1 - a` of its
+START, with at most `k` errors (mirrored coordinates of the located occurrence, not of the raw hit). -/
+theorem match_revcomp_indel_locus (P P' : Pattern) (d : List Nat) (hmir : MirrorList P.codes.reverse P'.codes)
+    (he : P'.maxerr = P.maxerr) (hm1 : 1 ≤ P.patlen) (hm : P.patlen ≤ 63)
+    (hno : ∀ a ∈ P.codes, oblig a = false) (hd : ∀ c ∈ d, c < 26 ∧ c ≠ 20)
+    (i : Int) (k : Nat) (hmem : (i, k) ∈ manberIndel P' d 0 d.length) :
+    ∃ pos a : Nat, i = (pos : Int) - P.patlen + 1 ∧ pos < d.length ∧ a ≤ pos + 1 ∧
+      editDist accepts P'.codes ((d.drop a).take (pos + 1 - a)) = k ∧
+      (a ≤ pos → ∃ k', k' ≤ k ∧
+        (((d.length - 1 - a : Nat) : Int) - P.patlen + 1, k') ∈ manberIndel P (rcData d) 0 d.length) :=
+  manberIndel_revcomp_locus P P' d hmir he hm1 hm hno
+    (hmir.no_oblig (fun a ha => hno a (List.mem_reverse.1 ha))) hd i k hmem
+
+/-- **the same at the string level**: for every pattern string of the documented grammar without `#`, at most 63 positions,
+the pattern returned by `ReverseComplement` (`complementPattern`) and the pattern itself are strand-symmetric with indels. -/
+theorem match_revcomp_indel_string (ts : List Tok) (hts : ∀ t ∈ ts, t.WF) (hne : ts ≠ []) (hlen : ts.length ≤ 63)
+    (hnob : ∀ t ∈ ts, t.oblig = false)
+    (e : Nat) (b : Bool) (d : List Nat) (hd : ∀ c ∈ d, c < 26 ∧ c ≠ 20) (K : Nat) :
+    ∃ P P' : Pattern, compile (patStr ts) e b = .ok P ∧ reverseComplement P = .ok P' ∧
+      ((∃ i k, k ≤ K ∧ (i, k) ∈ manberIndel P' d 0 d.length) ↔
+        (∃ i k, k ≤ K ∧ (i, k) ∈ manberIndel P (rcData d) 0 d.length)) := by
+  obtain ⟨h1, h2⟩ := reverseComplement_pat ts hts hne e b
+  have hpos : 1 ≤ ts.length := List.length_pos_iff.2 hne
+  refine ⟨_, _, compile_pat ts hts hne e b, h1, ?_⟩
+  refine match_revcomp_indel ⟨patStr ts, ts.map Tok.code, e, b⟩
+    ⟨patStr (ts.reverse.map Tok.comp), (ts.reverse.map Tok.comp).map Tok.code, e, b⟩ d h2 rfl (by show 1 ≤ (ts.map Tok.code).length; rw [List.length_map]; exact hpos)
+    (by show (ts.map Tok.code).length ≤ 63; rw [List.length_map]; exact hlen) ?_ hd K
+  intro a ha
+  simp only [List.mem_map] at ha
+  obtain ⟨t, ht, rfl⟩ := ha
+  rw [oblig_code]; exact hnob t ht
+
+set_option maxRecDepth 100000 in
+/-- non-vacuity / test (sample evaluation): `ACGGT` / its complement `ACCGT`, one error, indels, on `ttacgttt` and its reverse
+complement `aaacgtaa`: both hit lists are non-empty with the same least error count 1 -/
+example :
+    (compile ([65, 67, 67, 71, 84] : Bytes) 1 true).toOption.map (fun P => manberIndel P [19, 19, 0, 2, 6, 19, 19, 19] 0 8)
+      = some [(1, 1)] ∧
+    (compile ([65, 67, 71, 71, 84] : Bytes) 1 true).toOption.map (fun P => manberIndel P (rcData [19, 19, 0, 2, 6, 19, 19, 19]) 0 8)
+      = some [(1, 1)] := by
+  refine ⟨?_, ?_⟩ <;> decide
+
+/-! ## round 3 — strand symmetry at the level of the Go API (`FindAllIndex` on the stored bytes, `obiseq` reverse complement) -/
+
+/-- **`FindAllIndex` of the complemented pattern on `seq` ≡ `FindAllIndex` of the pattern on `seq.ReverseComplement()`, mirrored
+coordinates `(s, e, k) ↦ (n - e, n - s, k)`** — exact and mismatch-only mode, whole-sequence search (`begin = 0`, `length = -1`),
+sequence of lower-case letters without `u` (`SeqOps.rc` = the `obiseq` reverse complement, C07's model). -/
+theorem findAllIndex_revcomp (P P' : Pattern) (seq : Bytes) (hmir : MirrorList P.codes.reverse P'.codes)
+    (he : P'.maxerr = P.maxerr) (hi : P'.hasIndel = P.hasIndel) (hmode : P.hasIndel = false ∨ P.maxerr = 0)
+    (hm1 : 1 ≤ P.patlen) (hm : P.patlen ≤ 63) (hseq : ∀ b ∈ seq, isLower b = true ∧ b ≠ 117) (s e k : Int) :
+    (s, e, k) ∈ findAllIndex P' seq false 0 (-1) ↔
+      ((seq.length : Int) - e, (seq.length : Int) - s, k) ∈ findAllIndex P (SeqOps.rc seq) false 0 (-1) := by
+  have hl : P'.patlen = P.patlen := by unfold Pattern.patlen; simpa using hmir.length_eq
+  have hmode' : P'.hasIndel = false ∨ P'.maxerr = 0 := by rw [hi, he]; exact hmode
+  have hd := encode_letters seq hseq
+  have hdl : (seq.map encodeByte).length = seq.length := List.length_map ..
+  have h0 : (if (0 : Int) < 0 then (0 : Int) else 0).toNat = 0 := by decide
+  have hn : ∀ n : Nat, (if (-1 : Int) < 0 then (n : Int) else -1).toNat = n := by intro n; simp
+  have hmin : min (0 + (seq.length + Gen.apatMaxPatLen)) seq.length = seq.length := Nat.min_eq_right (by omega)
+  rw [findAllIndex_exact P' seq 0 (-1) hmode' (by omega) (by omega),
+    findAllIndex_exact P (SeqOps.rc seq) 0 (-1) hmode hm1 hm,
+    encode_rc seq (fun b hb => (hseq b hb).1), rc_length, h0, hn, hl, he, hmin]
+  have hpl : P.patlen = P.codes.length := rfl
+  rw [hpl] at hm1 hm ⊢
+  constructor
+  · rintro ⟨i', k', h1, h2, h3, _, h5, h6, h7⟩
+    refine ⟨seq.length - i' - P.codes.length, k', by omega, by omega, h3, Nat.zero_le _, by omega, ?_, h7⟩
+    rw [← h6]
+    have := hamCost_rc P.codes P'.codes (seq.map encodeByte) hmir hd i' (by rw [hdl]; exact h5)
+    rw [hdl] at this
+    exact this.symm
+  · rintro ⟨j, k', h1, h2, h3, _, h5, h6, h7⟩
+    refine ⟨seq.length - j - P.codes.length, k', by omega, by omega, h3, Nat.zero_le _, by omega, ?_, h7⟩
+    rw [← h6]
+    have := hamCost_rc P.codes P'.codes (seq.map encodeByte) hmir hd (seq.length - j - P.codes.length)
+      (by rw [hdl]; omega)
+    rw [hdl, show seq.length - (seq.length - j - P.codes.length) - P.codes.length = j by omega] at this
+    exact this
+
+/-- **the same with indels**, per error level: for every `K`, `FindAllIndex` of the complemented pattern reports a hit with at
+most `K` errors on `seq` iff `FindAllIndex` of the pattern reports one on `seq.ReverseComplement()` (pattern without `#`) -/
+theorem findAllIndex_revcomp_indel (P P' : Pattern) (seq : Bytes) (hmir : MirrorList P.codes.reverse P'.codes)
+    (he : P'.maxerr = P.maxerr) (hi : P'.hasIndel = P.hasIndel) (hind : P.hasIndel = true) (he0 : P.maxerr ≠ 0)
+    (hm1 : 1 ≤ P.patlen) (hm : P.patlen ≤ 63) (hno : ∀ a ∈ P.codes, oblig a = false)
+    (hseq : ∀ b ∈ seq, isLower b = true ∧ b ≠ 117) (K : Nat) :
+    (∃ h ∈ findAllIndex P' seq false 0 (-1), h.2.2 ≤ (K : Int)) ↔
+      (∃ h ∈ findAllIndex P (SeqOps.rc seq) false 0 (-1), h.2.2 ≤ (K : Int)) := by
+  have hd := encode_letters seq hseq
+  have hdl : (seq.map encodeByte).length = seq.length := List.length_map ..
+  have key : ∀ (Q : Pattern) (sq : Bytes), Q.hasIndel = true → Q.maxerr ≠ 0 →
+      ((∃ h ∈ findAllIndex Q sq false 0 (-1), h.2.2 ≤ (K : Int)) ↔
+        ∃ i k, k ≤ K ∧ (i, k) ∈ manberIndel Q (sq.map encodeByte) 0 (sq.map encodeByte).length) := by
+    intro Q sq hQ hQe
+    unfold findAllIndex seqData
+    simp only [Bool.false_eq_true, if_false]
+    rw [manberAll_indel Q _ _ _ hQ hQe]
+    have h0 : (if (0 : Int) < 0 then (0 : Int) else 0).toNat = 0 := by decide
+    have hn : (if (-1 : Int) < 0 then (sq.length : Int) else -1).toNat = sq.length := by simp
+    rw [h0, hn, manberIndel_clip Q _ _ (by rw [List.length_map]; omega)]
+    constructor
+    · rintro ⟨h, hmem, hk⟩
+      obtain ⟨⟨a, b⟩, hab, rfl⟩ := List.mem_map.1 hmem
+      exact ⟨a, b, by simpa using hk, hab⟩
+    · rintro ⟨i, k, hk, hmem⟩
+      exact ⟨_, List.mem_map.2 ⟨(i, k), hmem, rfl⟩, by simpa using hk⟩
+  rw [key P' seq (by rw [hi]; exact hind) (by rw [he]; exact he0), key P (SeqOps.rc seq) hind he0,
+    encode_rc seq (fun b hb => (hseq b hb).1), rcData_length]
+  exact match_revcomp_indel P P' (seq.map encodeByte) hmir he hm1 hm hno hd K
+
+/-- **the property clause as stated, at the string level**: for every pattern string of the documented grammar (at most 63
+positions, `!`, `#` and `[...]` included), any mismatch budget, and every sequence of lower-case letters without `u`:
+`MakeApatPattern(p).ReverseComplement().FindAllIndex(seq)` ≡ `MakeApatPattern(p).FindAllIndex(seq.ReverseComplement())` with
+mirrored coordinates. -/
+theorem findAllIndex_revcomp_string (ts : List Tok) (hts : ∀ t ∈ ts, t.WF) (hne : ts ≠ []) (hlen : ts.length ≤ 63)
+    (emax : Nat) (seq : Bytes) (hseq : ∀ b ∈ seq, isLower b = true ∧ b ≠ 117) (s e k : Int) :
+    ∃ P P' : Pattern, compile (patStr ts) emax false = .ok P ∧ reverseComplement P = .ok P' ∧
+      ((s, e, k) ∈ findAllIndex P' seq false 0 (-1) ↔
+        ((seq.length : Int) - e, (seq.length : Int) - s, k) ∈ findAllIndex P (SeqOps.rc seq) false 0 (-1)) := by
+  obtain ⟨h1, h2⟩ := reverseComplement_pat ts hts hne emax false
+  have hpos : 1 ≤ ts.length := List.length_pos_iff.2 hne
+  refine ⟨_, _, compile_pat ts hts hne emax false, h1, ?_⟩
+  exact findAllIndex_revcomp ⟨patStr ts, ts.map Tok.code, emax, false⟩
+    ⟨patStr (ts.reverse.map Tok.comp), (ts.reverse.map Tok.comp).map Tok.code, emax, false⟩ seq h2 rfl rfl (Or.inl rfl)
+    (by show 1 ≤ (ts.map Tok.code).length; rw [List.length_map]; exact hpos)
+    (by show (ts.map Tok.code).length ≤ 63; rw [List.length_map]; exact hlen) hseq s e k
+
+set_option maxRecDepth 100000 in
+/-- non-vacuity / test: `ACGGT` and its complement `ACCGT`, one mismatch, on `ttaccgtaacggt` and its reverse complement -/
+example :
+    (compile ([65, 67, 67, 71, 84] : Bytes) 1 false).toOption.map
+      (fun P => findAllIndex P ([116, 116, 97, 99, 99, 103, 116, 97, 97, 99, 103, 103, 116] : Bytes) false 0 (-1))
+      = some [(2, 7, 0), (8, 13, 1)] ∧
+    (compile ([65, 67, 71, 71, 84] : Bytes) 1 false).toOption.map
+      (fun P => findAllIndex P (SeqOps.rc ([116, 116, 97, 99, 99, 103, 116, 97, 97, 99, 103, 103, 116] : Bytes)) false 0 (-1))
+      = some [(0, 5, 1), (6, 11, 0)] := by
+  refine ⟨?_, ?_⟩ <;> decide
+
+/-! ## round 3 — `FindAllIndex` on a circular sequence is `FindAllIndex` on the extended linear buffer -/
+
+/-- **`FindAllIndex` on a circular sequence = `FindAllIndex` on the linear sequence extended by its first `min(len, MAX_PAT_LEN)`
+symbols** (what `new_apatseq` builds, as repaired: `C10-circular-short-overread`), with the window length the API computes from
+the ORIGINAL length.  Every theorem about linear sequences (`findAllIndex_exact`, `findAllIndex_indel`, `findAllIndex_inside`, …)
+therefore describes the hits on a circular sequence, in every mode: positions are positions of the extended buffer. -/
+theorem findAllIndex_circular_is_extended (P : Pattern) (seq : Bytes) (begin length : Int) :
+    findAllIndex P seq true begin length =
+      findAllIndex P (seq ++ seq.take Gen.apatMaxPatLen) false begin (if length < 0 then (seq.length : Int) else length) := by
+  unfold findAllIndex seqData
+  simp only [if_true, Bool.false_eq_true, if_false, List.map_append, List.map_take]
+  have h : (if (if length < 0 then (seq.length : Int) else length) < 0
+      then ((seq ++ List.take Gen.apatMaxPatLen seq).length : Int)
+      else (if length < 0 then (seq.length : Int) else length)) = (if length < 0 then (seq.length : Int) else length) := by
+    by_cases hl : length < 0
+    · simp only [hl, if_true]
+      rw [if_neg (by omega)]
+    · simp only [hl, if_false]
+  rw [h]
+
+/-- … for instance with indels: the hits on a circular sequence are the end positions `pos` of the extended buffer with the least
+edit distance of a substring of the extended buffer ending there (instance of `findAllIndex_indel`) -/
+theorem findAllIndex_indel_circular (P : Pattern) (seq : Bytes) (begin length : Int)
+    (hi : P.hasIndel = true) (he : P.maxerr ≠ 0) (hm1 : 1 ≤ P.patlen) (hm : P.patlen ≤ 63)
+    (hno : ∀ a ∈ P.codes, oblig a = false) (s e k : Int) :
+    (s, e, k) ∈ findAllIndex P seq true begin length ↔
+      (s, e, k) ∈ findAllIndex P (seq ++ seq.take Gen.apatMaxPatLen) false begin (if length < 0 then (seq.length : Int) else length) ∧
+      ∃ pos k' : Nat, s = (pos : Int) - P.patlen + 1 ∧ e = s + P.patlen ∧ k = (k' : Int) ∧ k' ≤ P.maxerr ∧
+        pos < seq.length + min Gen.apatMaxPatLen seq.length := by
+  rw [findAllIndex_circular_is_extended]
+  constructor
+  · intro h
+    refine ⟨h, ?_⟩
+    obtain ⟨pos, k', h1, h2, h3, _, h5, h6, _⟩ := (findAllIndex_indel P _ begin _ hi he hm1 hm hno s e k).1 h
+    refine ⟨pos, k', h1, h2, h3, h6, ?_⟩
+    have hl : (seq ++ List.take Gen.apatMaxPatLen seq).length = seq.length + min Gen.apatMaxPatLen seq.length := by simp
+    rw [hl] at h5
+    omega
+  · exact fun h => h.1
+
+set_option maxRecDepth 100000 in
+/-- test: `ACGT` across the origin of the circular sequence `gtttac` (shorter than `MAX_PAT_LEN`): one hit at 4 -/
+example : (compile ([65, 67, 71, 84] : Bytes) 0 false).toOption.map
+      (fun P => (findAllIndex P ([103, 116, 116, 116, 97, 99] : Bytes) true 0 (-1),
+        findAllIndex P ([103, 116, 116, 116, 97, 99] ++ [103, 116, 116, 116, 97, 99] : Bytes) false 0 6))
+      = some ([(4, 8, 0)], [(4, 8, 0)]) := by decide
 
 end ObiVerif.Props.C10
